@@ -19,7 +19,10 @@ Definition event_eqb (a b : event) : bool :=
 
 (* data, tree, observed: listener events, error returned?, final data *)
 Inductive case :=
-| CExec (data : node) (a : action) (evs : list event) (failed : bool) (final : node).
+| CExec (data : node) (a : action) (evs : list event) (failed : bool) (final : node)
+(* two runs on one executor: the second starts from the state (data, definitions, event log) the
+   first one left, whether it failed or not; [failed] is the second run's *)
+| CExec2 (data : node) (a1 a2 : action) (evs : list event) (failed : bool) (final : node).
 
 Definition check (c : case) : bool :=
   match c with
@@ -27,6 +30,16 @@ Definition check (c : case) : bool :=
       match data with
       | Con kvs =>
           let '(st, r) := exec 40 a (init_state kvs) in
+          list_eqb event_eqb (st_ev st) evs &&
+          (match r with SOk => negb failed | SErr => failed | SFuel => false end) &&
+          node_eqb (Con (st_data st)) final
+      | _ => false
+      end
+  | CExec2 data a1 a2 evs failed final =>
+      match data with
+      | Con kvs =>
+          let '(st1, _) := exec 40 a1 (init_state kvs) in
+          let '(st, r) := exec 40 a2 st1 in
           list_eqb event_eqb (st_ev st) evs &&
           (match r with SOk => negb failed | SErr => failed | SFuel => false end) &&
           node_eqb (Con (st_data st)) final
